@@ -171,6 +171,12 @@ ApplyEv(e) ==
                              Fail("D06.chain.group", n, <<"recorded", R, "specification", H2[n].link.refs>>))
                         : n \in appended}
             \cup (IF c \in applied THEN When(e.new = <<>>, Fail("C06.idempotent", c, <<"second application created", Len(e.new)>>)) ELSE {})
+            \* C08: exporting before or after unrolling gives the same multiset of instructions and the same number of measurements
+            \* (the exporters do not repeat the top-level circuit itself, so this is stated for circuits whose own count is 1)
+            \cup (IF e.stim_before.status = "ok" /\ e.stim_after.status = "ok" /\ EvalRep(env, H[c].rep) = 1
+                  THEN When(Multiset(e.stim_before.flat) = Multiset(e.stim_after.flat), Fail("C08.multiset", c, <<Len(e.stim_before.flat), Len(e.stim_after.flat)>>))
+                       \cup When(CountM(e.stim_before.flat) = CountM(e.stim_after.flat), Fail("C08.nmeas", c, <<CountM(e.stim_before.flat), CountM(e.stim_after.flat)>>))
+                  ELSE {})
   IN /\ heap' = IF wellformedNew THEN H2 ELSE heap
      /\ fails' = fails \cup Tag(cl)
      /\ applied' = applied \cup {c}
